@@ -40,6 +40,10 @@ def units(tier):
         for s in SOLVERS:
             us.append({'name': '%s/%s' % (m, s), 'module': m, 'group': s})
         us.append({'name': '%s/tth' % m, 'module': m, 'group': 'tth'})
+        # history units: the tilted solvers with wedge = 0 exactly (the common set-up) after calls with other tilts (see prime());
+        # with the wedge concrete the expressions of a path that reuses stale state stay small enough to be decided
+        for s in ('general', 'quart'):
+            us.append({'name': '%s/%s@wedge0' % (m, s), 'module': m, 'group': s, 'wedge0': True})
     return us
 
 
@@ -134,6 +138,9 @@ def run_unit(u, desc, tier, seed):
     f, ctx = setup(modname, group)
     zc = ctx.zc
     v = f.var
+    wedge0 = bool(desc.get('wedge0'))
+    if wedge0:
+        ctx.pre = ctx.pre + [zc.cmp0(v('cy') - 1, '=='), zc.cmp0(v('sy'), '==')]
     g = C.oa([v('g0'), v('g1'), v('g2')])
     gin = g * v('kap') if modname == 'laue' else g
     st, ct = v('st'), v('ct')
@@ -144,13 +151,15 @@ def run_unit(u, desc, tier, seed):
         tw = Angle.double(theta)
         tilts = []
         if group in ('general', 'quart'):
-            tilts = [Angle(v('cx'), v('sx'), Fraction(-1, 2), Fraction(1, 2), True, True), Angle(v('cy'), v('sy'), Fraction(-1, 2), Fraction(1, 2), True, True)]
+            tilts = [Angle(v('cx'), v('sx'), Fraction(-1, 2), Fraction(1, 2), True, True),
+                     Angle(lift(1) if wedge0 else v('cy'), lift(0) if wedge0 else v('sy'), Fraction(-1, 2), Fraction(1, 2), True, True)]
         elif group == 'wedge':
             tilts = [Angle(v('cy'), v('sy'), Fraction(-1, 2), Fraction(1, 2), True, True)]
         return tw, tilts
 
     def body():
         tw, tilts = mk_inputs()
+        prime(mod)
         with patched(mod, extra=extra):
             if group == 'general':
                 om, eta = mod.find_omega_general(gin, tw, tilts[0], tilts[1])
@@ -385,7 +394,24 @@ def tilt_floats(env, group):
     return []
 
 
+def prime(mod):
+    """history: every solver call under test is preceded, in the same process, by legal calls of the tilted solvers with OTHER tilts
+    (chi = wedge = 0, exact cosines, so that 'same tilt as last time' is a decidable path condition for the symbolic tilts).
+    The result under test must not depend on it."""
+    th = 0.3
+    gp = np.array([0.6, -0.64, 0.48]) * math.sin(th)
+    for fn in ('find_omega_general', 'find_omega_quart', 'find_omega_wedge'):
+        try:
+            if fn == 'find_omega_wedge':
+                getattr(mod, fn)(gp, 2 * th, 0.0)
+            else:
+                getattr(mod, fn)(gp, 2 * th, 0.0, 0.0)
+        except Exception:
+            pass
+
+
 def real_call(mod, modname, group, g, twoth, tilts):
+    prime(mod)
     if group == 'general':
         return mod.find_omega_general(g, twoth, tilts[0], tilts[1])
     if group == 'quart':
